@@ -1,18 +1,11 @@
 //@@ unit K5gen
-//@@ title extraction of the copy tail of searchlite_search for the Kani harness (plain Rust, included by kani/ffi_verif.rs)
+//@@ title extraction of the tail of searchlite_search (everything after the search call) for the Kani harness (plain Rust, included by kani/ffi_verif.rs)
 // GENERATED on every run from /repo/searchlite-ffi/src/lib.rs by vfw/extract.py -- do not edit.
-//@@ extract ffi_guard
+//@@ extract ffi_tail
 //@ file searchlite-ffi/src/lib.rs
 //@ item fn searchlite_search
-//@ slice /if out_json_buf\.is_null\(\) \|\| buf_cap == 0 \{/ .. /if out_json_buf\.is_null\(\) \|\| buf_cap == 0 \{/
-//@ header pub unsafe fn ffi_guard(out_json_buf: *mut c_char, buf_cap: usize) -> usize
+//@ slice-after /let res = match reader\.search\(&req\) \{/ .. /$/
+//@ header pub unsafe fn ffi_tail(encoded_in: String, out_json_buf: *mut c_char, buf_cap: usize) -> usize
 //@ early-return
-//@ tail usize::MAX
-//@@ end
-
-//@@ extract ffi_copy_tail
-//@ file searchlite-ffi/src/lib.rs
-//@ item fn searchlite_search
-//@ slice /let len = bytes\.len\(\)/ .. /$/
-//@ header pub unsafe fn ffi_copy_tail(bytes: &[u8], out_json_buf: *mut c_char, buf_cap: usize) -> usize
+//@ rewrite R15 /serde_json::to_string\(&res\)\.unwrap_or_else\(\|_\| "\{\}"\.to_string\(\)\)/ => encoded_in
 //@@ end
